@@ -334,8 +334,10 @@ Definition swap_cell_indices (a b : nat) (s : mesh) : mesh :=
       | None => l
       end in
   let s1 := if fbu s then
-              let l1 := fold_left (fix1 a b) (cell_at s a) (inc_cell s) in
-              let l2 := fold_left (fix1 b a) (cell_at s b) l1 in
+              (* the halffaces pointing to a are found first, then b -> a, then those -> b (fix: swap_cell_indices ... flip back) *)
+              let to_b := filter (fun hf => match nth hf (inc_cell s) None with Some c => c =? a | None => false end) (cell_at s a) in
+              let l1 := fold_left (fix1 b a) (cell_at s b) (inc_cell s) in
+              let l2 := fold_left (fun l hf => upd hf (Some b) l) to_b l1 in
               set_inc_cell l2 s
             else s in
   let s2 := set_cdel (swap_nth a b false (cdel s1)) (set_cells (swap_nth a b [] (cells s1)) s1) in
